@@ -65,6 +65,9 @@ type Input struct {
 	EdBatch bool   `json:"ed_batch"`
 	Items   []Item `json:"items"`
 	Salt    int64  `json:"salt"`
+	// Pre (ab / exec): blocks verified first on the SAME worker pool (and processor); their verdicts are not part of
+	// the case: the pool carries no state from one job to the next, so the verdict on Items must not depend on them.
+	Pre [][]Item `json:"pre,omitempty"`
 }
 
 type mirror struct {
@@ -261,6 +264,36 @@ func runAb(in Input) (m mirror, err error) {
 	ch := make(chan res, 1)
 	go func() {
 		w := newWorkers(in.Cores)
+		for pi, pre := range in.Pre {
+			pin := in
+			pin.Items, pin.Salt = pre, in.Salt+int64(pi)+1
+			pcounts := map[uint8]int{}
+			type pr struct {
+				msg []byte
+				a   chain.Auth
+			}
+			var pps []pr
+			for i, it := range pre {
+				msg := msgFor(pin, i)
+				a, err := mkAuth(normBad(it), msg)
+				if err != nil {
+					continue
+				}
+				pps = append(pps, pr{msg, a})
+				pcounts[a.GetTypeID()]++
+			}
+			pjob, err := w.NewJob(len(pps))
+			if err != nil {
+				ch <- res{0, fmt.Errorf("NewJob(pre): %w", err)}
+				return
+			}
+			pab := chain.NewAuthBatch(&logging.NoLog{}, engines, pjob, pcounts)
+			for _, p := range pps {
+				pab.Add(p.msg, p.a)
+			}
+			pab.Done(nil)
+			_ = pjob.Wait()
+		}
 		job, err := w.NewJob(len(ps))
 		if err != nil {
 			ch <- res{0, fmt.Errorf("NewJob: %w", err)}
@@ -323,27 +356,41 @@ func runExec(in Input) (m mirror, err error) {
 	if err != nil {
 		return m, err
 	}
-	txs := make([]*chain.Transaction, len(in.Items))
-	for i, it := range in.Items {
-		base := chain.Base{
-			Timestamp: utils.UnixRMilli(testRules.GetMinEmptyBlockGap(), testRules.GetValidityWindow()),
-			ChainID:   ids.Empty,
-			MaxFee:    1_000_000_000 + uint64(in.Salt%1000)*1000 + uint64(i),
+	mkBlk := func(items []Item, salt int64) (*chain.StatelessBlock, error) {
+		txs := make([]*chain.Transaction, len(items))
+		for i, it := range items {
+			base := chain.Base{
+				Timestamp: utils.UnixRMilli(testRules.GetMinEmptyBlockGap(), testRules.GetValidityWindow()),
+				ChainID:   ids.Empty,
+				MaxFee:    1_000_000_000 + uint64(salt%1000)*1000 + uint64(i),
+			}
+			td := chain.NewTxData(base, []chain.Action{})
+			a, err := mkAuth(it, td.UnsignedBytes())
+			if err != nil {
+				return nil, err
+			}
+			tx, err := chain.NewTransaction(base, []chain.Action{}, a)
+			if err != nil {
+				return nil, err
+			}
+			txs[i] = tx
 		}
-		td := chain.NewTxData(base, []chain.Action{})
-		a, err := mkAuth(it, td.UnsignedBytes())
-		if err != nil {
-			return m, err
-		}
-		tx, err := chain.NewTransaction(base, []chain.Action{}, a)
-		if err != nil {
-			return m, err
-		}
-		txs[i] = tx
+		return chain.NewStatelessBlock(ids.Empty, testRules.GetMinBlockGap(), 1, txs, root, &block.Context{})
 	}
-	blk, err := chain.NewStatelessBlock(ids.Empty, testRules.GetMinBlockGap(), 1, txs, root, &block.Context{})
+	blk, err := mkBlk(in.Items, in.Salt)
 	if err != nil {
 		return m, err
+	}
+	var preBlks []*chain.StatelessBlock
+	for pi, pre := range in.Pre {
+		for i := range pre {
+			pre[i] = normBad(pre[i])
+		}
+		pb, err := mkBlk(pre, in.Salt+int64(pi)+1)
+		if err != nil {
+			return m, err
+		}
+		preBlks = append(preBlks, pb)
 	}
 	metrics, err := chain.NewMetrics(prometheus.NewRegistry())
 	if err != nil {
@@ -355,6 +402,9 @@ func runExec(in Input) (m mirror, err error) {
 		p := chain.NewProcessor(trace.Noop, &logging.NoLog{}, &genesis.ImmutableRuleFactory{Rules: testRules}, w,
 			auth.DefaultEngines(), mdManager, bh, &validitywindowtest.MockTimeValidityWindow[*chain.Transaction]{},
 			metrics, chain.NewDefaultConfig())
+		for _, pb := range preBlks {
+			_, _ = p.Execute(ctx, db, chain.NewExecutionBlock(pb), false)
+		}
 		_, err := p.Execute(ctx, db, chain.NewExecutionBlock(blk), false)
 		w.Stop()
 		ch <- err
@@ -468,6 +518,9 @@ func run(in Input) emit.Case {
 	}
 	if lastBad {
 		kind += "/lastbad"
+	}
+	if len(in.Pre) > 0 {
+		kind += "/reused-pool"
 	}
 	return emit.Case{Coq: coq, JSON: m, Nontrivial: len(in.Items) >= 1, Kind: kind, Sig: sig}
 }
@@ -589,6 +642,18 @@ func gen(r *rand.Rand, i int) Input {
 			n = min(n, 20)
 		}
 		in.Items = genItems(r, n, mix, batchSize(n, max(1, in.Cores)))
+	}
+	if in.Layer != "ed" && r.Intn(3) == 0 {
+		// the same pool first verifies one or two other blocks, at least one of them with an invalid signature
+		for k := 1 + r.Intn(2); k > 0; k-- {
+			pn := 1 + r.Intn(12)
+			pre := genItems(r, pn, []int{0, 1, 2}[r.Intn(3)], batchSize(pn, max(1, in.Cores)))
+			if k == 1 {
+				j := r.Intn(len(pre))
+				pre[j].Bad, pre[j].Bit = 1+r.Intn(3), r.Intn(256)
+			}
+			in.Pre = append(in.Pre, pre)
+		}
 	}
 	return in
 }
